@@ -49,6 +49,7 @@ class InterpBase(CtxMixin):
         self.fn_stack = []
         self.prove_hook = None
         self.read_log = None
+        self.global_orig = {}
         self.read_base = 0
         self.reads_from = 0
         self.loop_birth = 0
@@ -177,6 +178,9 @@ class InterpBase(CtxMixin):
     def bind(self, env, name, value):
         if name in env.globals_decl:
             self.note_effect('global_write', f'{env.module.name}.{name}')
+            key = (env.module.name, name)
+            if key not in self.global_orig:
+                self.global_orig[key] = (env.module, env.module.ns.get(name))
             env.module.ns[name] = value
         else:
             env.vars[name] = value
@@ -832,6 +836,11 @@ class InterpBase(CtxMixin):
 
     def note_global_read(self, module, name, v):
         pass
+
+    def restore_globals(self):
+        """module-level variables written by interpreted code are reset at the start of every path"""
+        for (mod, name), (m, v) in self.global_orig.items():
+            m.ns[name] = v
 
 
 from .objects import ObjectsMixin, ObjModel
